@@ -298,6 +298,15 @@ def judge_c05(d):
         if im[1] != mo[1]: what.append("the probe request was answered by the %s channel instead of %s" % (im[1], mo[1]))
         if im[2] != mo[2]: what.append("the certificate presented is that of %s instead of %s" % (im[2], mo[2]))
         return "live %s connection with SNI %s: %s" % (how, sni, "; ".join(what) or "observation differs")
+    if t[1] == "runcert":
+        ia, mo = impl.split(";"), model.split(";")
+        for k, (a, b) in enumerate(zip(ia, mo)):
+            if a != b:
+                return ("endpoint binary, SIGHUP reload history: TLS connection number %d of the history was %s; the configuration installed by "
+                        "the last successful reload gives %s (a failed reload must leave the previous configuration in force, a successful "
+                        "one must switch completely)" % (k + 1, "refused" if a == "refused" else "served with the certificate of " + a,
+                                                         "a refusal" if b == "refused" else "the certificate of " + b))
+        return None
     if t[1] == "run":
         return "a selection in a reload history was not answered from the configuration installed by the last successful reload: got %s expected %s" % (impl[:200], model[:200])
     return None
@@ -713,7 +722,8 @@ PROPS = {
     ),
     "C05": dict(
         retry_on_failure=True,
-        suites=["c05", "c05live"],
+        endpoint_bin=True,
+        suites=["c05", "c05live", "c05bin"],
         judge=judge_c05,
         level="proof",
         rule="150 (thorough 1500) host configurations over names with dot-suffix overlaps and alternative SNIs of the form <l>.<main>, "
@@ -728,7 +738,12 @@ PROPS = {
              "names between classes: rustls clients over TCP (10 SNI forms incl. none, alternative, <credentials>.<host>, unknown; 10 ALPN "
              "lists incl. none, h3 on TCP, unknown) and quiche clients over QUIC observe the certificate presented, the protocol "
              "negotiated and which channel answers a probe request (tunnel -> scripted forwarder refuses -> 502, ping -> 200, speedtest -> "
-             "400, reverse proxy -> the origin's answer); compared with tcpAccept / quicAccept of the model",
+             "400, reverse proxy -> the origin's answer); compared with tcpAccept / quicAccept of the model."
+             " Binary (suite c05bin): the real trusttunnel_endpoint process (built from the working tree, no feature) is started with a "
+             "hosts file and sent 4-7 SIGHUPs per history (3 histories, thorough 10) after rewriting the file: valid configurations out of "
+             "a universe of 7 host entries that each have their own certificate, and invalid ones (a name in two classes, no main host, a "
+             "certificate that does not exist, unparsable TOML, no file); after every reload a TLS client asks for 6 names and the "
+             "certificate it is shown (= which entry) or the refusal is compared with the reload model; the process must stay alive",
         explanation="theorems select_designated_host, no_entry_refused, exact_name_own_class, protocol_is_best_common, "
                     "common_protocol_accepted, default_only_when_no_alpn, unknown_alpn_ignored, tcp_never_h3, quic_always_h3, "
                     "quic_designated_host, quic_unknown_sni_is_bootstrap, reload_* about TT/Model/Demux.lean",
@@ -738,7 +753,9 @@ PROPS = {
         assumptions=["an alternative SNI listed for two main hosts is resolved by HashMap iteration order: generator keeps them unique"],
     ),
     "C13": dict(
-        suites=["c13"],
+        retry_on_failure=True,
+        endpoint_bin=True,
+        suites=["c13", "c13bin"],
         judge=judge_c13,
         level="proof",
         rule="user names / passwords over an alphabet with quotes, backslash, #, =, brackets, tab, newline, CR, BS, FF, DEL, U+0001, "
@@ -747,7 +764,11 @@ PROPS = {
              "> U+10FFFF, raw control, unterminated, stray quote, empty, non-strings, missing keys) read through the real Settings "
              "deserialiser; registry verdicts for correct / wrong / truncated / unpadded / case-changed / raw tokens and SNI sources; "
              "the wizard's own compose_credentials_content (copied from tools/ by the extractor) read back by the endpoint; exported "
-             "client configuration parsed back; 420 start-up configurations through TOML + Core::new; TLS host validation cases",
+             "client configuration parsed back; 420 start-up configurations through TOML + Core::new; TLS host validation cases for every pair "
+             "of host classes. Binary (suite c13bin): the real endpoint process is started with 27 (thorough 80) of those start-up "
+             "configurations written as settings files (listening / exited, compared with the same model), with 4 invalid TLS hosts files, "
+             "and run with `-c <name> -a <address>` for 4 clients of a credentials file written by the wizard's composer (names differing "
+             "by case, passwords with quotes, backslashes, blanks, non-ASCII): the printed pair must be that client's own",
         explanation="theorems decode_encode_basic, literal_verbatim, basic_plain_verbatim, load_ok_iff, empty_rejected, base64_injective, "
                     "accepted_iff_listed, accepted_token_identifies_pair, refuses_to_start_iff about TT/Model/Creds.lean",
         trusted=["toml_edit for everything outside single-line basic/literal strings (multi-line strings are outside the model)",
@@ -1032,7 +1053,8 @@ PROPS = {
     ),
     "C19": dict(
         retry_on_failure=True,
-        suites=["c19", "c19live"],
+        endpoint_bin=True,
+        suites=["c19", "c19live", "c19bin"],
         judge=judge_c19,
         level="proof",
         exhaustive=True,
@@ -1046,7 +1068,9 @@ PROPS = {
              " Live (suite c19live, wall clock): 2 (thorough 6) rounds on the real Core::listen (TCP + QUIC) with 1-3 HTTP/3 sessions "
              "(every other one with an open CONNECT tunnel) and a TCP connection that has not sent its ClientHello: nothing is closed "
              "during 300 ms before the submission; after it every QUIC connection must be closed by the endpoint within 5 s, "
-             "completion() must return within 10 s, and a new session must not be served afterwards",
+             "completion() must return within 10 s, and a new session must not be served afterwards."
+             " Binary (suite c19bin): the real endpoint process with an HTTP/3 session, an idle TLS connection and a silent TCP "
+             "connection is sent SIGINT: it must exit with code 0 within 10 s and the HTTP/3 client must see its connection closed",
         explanation="theorems registered_before_submit_observes, waiting_participant_is_woken, no_submit_no_notification, "
                     "completion_iff_all_finished, completion_stable, late_registration_gets_no_guard about TT/Model/Shutdown.lean",
         trusted=["tokio broadcast (capacity 1, lag) and mpsc close semantics as modelled",
